@@ -366,6 +366,40 @@ def job_histories(first, h):
                     acc.violation('history-id-reuse', case, 'ids reused across documents parsed by one parser/compiler pair')
                     break
                 seen |= new
+            # the default wiring: Parser() builds its own AST builder and id generator; the documents it parses are one stream
+            p = Parser()
+            seen = set()
+            top = -1
+            for i in hist:
+                try:
+                    d = p.parse(I.StringScanner(POOL[i]))
+                except ParserError:
+                    continue
+                ids = list(collect(d, {}).keys())
+                try:
+                    nums = sorted(int(x) for x in ids)
+                except (TypeError, ValueError):
+                    acc.violation('id-type', case, 'default wiring: ids are not decimal strings: %s' % ids[:6])
+                    break
+                if set(ids) & seen or (nums and nums[0] <= top):
+                    acc.violation('history-id-reuse', case, 'ids reused across documents parsed by one Parser() with its own builder and generator: %s' % sorted(set(ids) & seen)[:5])
+                    break
+                if nums and nums != list(range(nums[0], nums[0] + len(nums))):
+                    acc.violation('ids-not-dense', case, 'default wiring: ids of one document are not consecutive', observed=nums[:40])
+                    break
+                seen |= set(ids)
+                top = nums[-1] if nums else top
+                gen = getattr(getattr(p, 'ast_builder', None), 'id_generator', None)
+                if isinstance(gen, IdGenerator):
+                    d['uri'] = 'u'
+                    pk = Compiler(gen).compile(d)
+                    check_ids(d, pk, acc, case, base=nums[0] if nums else top + 1)
+                    pid = {x['id'] for x in pk} | {s['id'] for x in pk for s in x['steps']}
+                    if pid & seen:
+                        acc.violation('history-id-reuse', case, 'default wiring: pickle ids repeat ids handed out before')
+                        break
+                    seen |= pid
+                    top = max([top] + [int(x) for x in pid])
     acc.sample({'history': [POOL[i] for i in hist]})
     return acc
 
